@@ -63,6 +63,11 @@ ReadOnly == [][ op'.o.o \in {"get", "in", "keys"} \/ ~op'.ok => S' = S ]_vars
 \* (by construction of Apply); deleting never removes a non-empty level
 DelOnlyLeaves == [][ op'.o.o = "del" /\ op'.ok /\ ~IsListAt(S, Resolve(op'.o.tok)) => Cardinality(S \ S') = 1 ]_vars
 
+\* the reserved names: the mapping interface's own method names (the bounded model uses one of them, `keys', as a key; every one of
+\* them must be refused as the final name of an assignment, by item, path or attribute)
+ReservedNames == <<"keys", "values", "items", "iterkeys", "itervalues", "iteritems", "listkeys", "listvalues", "listitems",
+                   "pop", "popitem", "get", "set", "update", "setdefault", "clear", "copy">>
+ASSUME PrintT(ToJson([k |-> "reserved", names |-> ReservedNames]))
 \* ---- emission
 ASSUME \A o \in Ops : PrintT(ToJson([k |-> "op", o |-> o]))
 EmitState == PrintT(ToJson([k |-> "state", S |-> S, depth |-> depth]))
